@@ -74,6 +74,35 @@ def _class_unit(ctx, key):
     return None, m.cls(cls)
 
 
+
+def _write_args(w, fn, cfg):
+    """(keyword or None, expression, flow node where it is evaluated) for every argument of a write call.  Options collected in a local dict
+    and splatted (`opts = {}; opts["unitcell_lengths"] = ...; f.write(..., **opts)`, `opts = dict(k=v)`, `opts = {"k": v}`) are taken apart
+    into the values stored under each key, each at its own statement."""
+    out = [(None, a, cfg.node_containing(w)) for a in w.args]
+    for k in w.keywords:
+        if k.arg is not None or not isinstance(k.value, ast.Name):
+            out.append((k.arg, k.value, cfg.node_containing(w)))
+            continue
+        d = k.value.id
+        found = False
+        for st in walk_no_nested(fn):
+            if isinstance(st, ast.Assign) and len(st.targets) == 1:
+                t = st.targets[0]
+                if isinstance(t, ast.Subscript) and isinstance(t.value, ast.Name) and t.value.id == d and isinstance(t.slice, ast.Constant) and isinstance(t.slice.value, str):
+                    out.append((t.slice.value, st.value, cfg.node_containing(st.value)))
+                    found = True
+                elif isinstance(t, ast.Name) and t.id == d:
+                    if isinstance(st.value, ast.Dict) and all(isinstance(x, ast.Constant) for x in st.value.keys):
+                        out += [(x.value, v, cfg.node_containing(v)) for x, v in zip(st.value.keys, st.value.values)]
+                        found = True
+                    elif isinstance(st.value, ast.Call) and call_name(st.value) == "dict" and not st.value.args:
+                        out += [(x.arg, x.value, cfg.node_containing(x.value)) for x in st.value.keywords if x.arg]
+                        found = True
+        if not found:
+            out.append((None, k.value, cfg.node_containing(w)))
+    return out
+
 def check(ctx):
     ctx.rule("C01-R1", "for every writable extension a saver exists, it instantiates the class registered as file object for the extension, and a loader is registered")
     ctx.rule("C01-R2", "every length-carrying argument of f.write in a saver is in_units_of(x, Trajectory._distance_unit, <class>.distance_unit) (or the class unit is nm); "
@@ -135,9 +164,7 @@ def check(ctx):
             ctx.undecided("C01-R2", fn, TRAJ, q, "f.write", "no f.write call found")
             continue
         for w in writes:
-            node = cfg.node_containing(w)
-            args = [(None, a) for a in w.args] + [(k.arg, k.value) for k in w.keywords]
-            for (kwname, a) in args:
+            for (kwname, a, node) in _write_args(w, fn, cfg):
                 label = kwname or src(a)[:25]
                 ds = deps(a, node, defs)
                 is_len = any(d.split("[")[0] in LENGTH_SRC for d in ds)
@@ -164,8 +191,7 @@ def check(ctx):
                    and "n_frames" in src(n.iter) and isinstance(n.target, ast.Name)]:
             iv = lp.target.id
             for w in [n for n in ast.walk(lp) if isinstance(n, ast.Call) and call_name(n) == "f.write"]:
-                node = cfg.node_containing(w)
-                for (kwname, a) in [(None, x) for x in w.args] + [(k.arg, k.value) for k in w.keywords]:
+                for (kwname, a, node) in _write_args(w, fn, cfg):
                     ds = deps(a, node, defs)
                     perframe = [d for d in ds if d.split("[")[0] in LENGTH_SRC + NONLENGTH_SRC or d.split("[")[0] == "bfactors"]
                     if not perframe:
